@@ -908,12 +908,21 @@ pub fn views_step<E: Elem + SatisfyTraits<Tr>, Tr: ?Sized + TrSet, M: MemB>(v: &
     if r.via == VIA_TYPED {
         let mut tv = lib(|| v.downcast_mut::<E>()).expect("LIB: typed view of the real element type");
         let sc = lib(|| tv.spare_capacity_mut());
+        if sc.len() < k {
+            // the view is shorter than capacity - len (already reported above): nothing to write into
+            cx.diag.push_str("spare_capacity_mut too short to take the new tail; ");
+            return;
+        }
         for (x, t) in r.tags.iter().enumerate() {
             sc[x].write(E::make(*t));
         }
         lib(|| unsafe { tv.set_len(len + k) });
     } else {
         let sp = lib(|| v.spare_bytes_mut());
+        if sp.len() < k * size {
+            cx.diag.push_str("spare_bytes_mut too short to take the new tail; ");
+            return;
+        }
         for (x, t) in r.tags.iter().enumerate() {
             let val = ManuallyDrop::new(E::make(*t));
             let src = &*val as *const E as *const u8;
